@@ -623,6 +623,76 @@ theorem C10_legacy_neighbors_exact (c : LCfg) (ops : List LOp) (p : P2) (r : Int
     show (getNeighbors (lrun c ops) p r incl).1.pos = _
     rw [h1]; exact h4
 
+/-- Legacy: `agent.pos` is a plain attribute, and a user who assigns it directly (instead of calling `move_agent`) can
+    make the space incoherent — for a while.  At every reachable state, for an agent of the space: membership and the other
+    agents' `pos` are untouched and the agent reports `p`.  If no position cache exists, then for a point of the space the
+    write is indistinguishable from `move_agent(a, p)`.  If the cache exists, `get_neighbors` goes on answering from it, that
+    is for the position the agent *had* (the same answer as before the write) — until the next accepted `place_agent` or
+    `remove_agent` of any agent throws the cache away: from then on the state is the one `move_agent(a, p)` followed by that
+    call would have produced. -/
+theorem C10_legacy_direct_pos_write (c : LCfg) (ops : List LOp) (a : Aid) (p : P2) :
+    let s := lrun c ops
+    let s' := lpoke s a p
+    s'.agents = s.agents ∧ s'.pos a = some p ∧ (∀ b, b ≠ a → s'.pos b = s.pos b) ∧
+    (s.pts = none → torusAdj c p = .ok p → s' = lrun c (ops ++ [.move a p])) ∧
+    (∀ pts, s.pts = some pts → ∀ q r incl,
+      (getNeighbors s' q r incl).2 = (getNeighbors s q r incl).2 ∧
+      (getNeighbors s' q r incl).2 = .ok (nbrSpec c (lspec c ops).1 (lspec c ops).2 q r incl)) ∧
+    (torusAdj c p = .ok p →
+      (∀ b q s'', place s' b q = .ok s'' → s'' = lrun c (ops ++ [.move a p, .place b q])) ∧
+      (∀ b s'', remove s' b = .ok s'' → s'' = lrun c (ops ++ [.move a p, .remove b]))) := by
+  dsimp only
+  have h := lrun_refines c ops
+  have hmove : torusAdj c p = .ok p →
+      (move (lrun c ops) a p).1.cfg = (lrun c ops).cfg ∧ (move (lrun c ops) a p).1.a2i = (lrun c ops).a2i ∧
+      (move (lrun c ops) a p).1.pos = upd (lrun c ops).pos a (some p) := by
+    intro hp
+    simp only [move, h.cfg, hp]
+    repeat' split
+    all_goals exact ⟨rfl, rfl, rfl⟩
+  refine ⟨rfl, by simp [lpoke, upd], fun b hb => by simp [lpoke, upd, hb], fun hn hp => ?_, fun pts hpts q r incl => ?_,
+    fun hp => ⟨fun b q s'' hs => ?_, fun b s'' hs => ?_⟩⟩
+  · simp only [lrun, List.foldl_append, List.foldl_cons, List.foldl_nil, lstep]
+    show lpoke (lrun c ops) a p = (move (lrun c ops) a p).1
+    simp only [move, h.cfg, hp, lpoke]
+    have hn' : (lrun c ops).pts = none := hn
+    simp [hn']
+  · have e : (getNeighbors (lpoke (lrun c ops) a p) q r incl).2 = (getNeighbors (lrun c ops) q r incl).2 := by
+      have hpts' : (lrun c ops).pts = some pts := hpts
+      simp only [getNeighbors, ensureCache, lpoke, hpts']
+      split <;> rfl
+    exact ⟨e, by rw [e]; exact (C10_legacy_neighbors_exact c ops q r incl).1⟩
+  · obtain ⟨m1, m2, m3⟩ := hmove hp
+    simp only [lrun, List.foldl_append, List.foldl_cons, List.foldl_nil, lstep]
+    show s'' = (match place (move (lrun c ops) a p).1 b q with | .ok t => t | .error _ => (move (lrun c ops) a p).1)
+    simp only [place, lpoke, invalidate] at hs ⊢
+    rw [m1]
+    split at hs
+    · cases hs
+    · cases hs
+      simp only [m2, m3]
+  · obtain ⟨m1, m2, m3⟩ := hmove hp
+    simp only [lrun, List.foldl_append, List.foldl_cons, List.foldl_nil, lstep]
+    show s'' = (match remove (move (lrun c ops) a p).1 b with | .ok t => t | .error _ => (move (lrun c ops) a p).1)
+    have hk' : (lpoke (lrun c ops) a p).a2i.keys.contains b = (lrun c ops).a2i.keys.contains b := rfl
+    cases hk : (lrun c ops).a2i.keys.contains b with
+    | false =>
+      have : remove (lpoke (lrun c ops) a p) b = .error .notIn := by
+        simp only [remove]; rw [hk', hk]; rfl
+      rw [this] at hs; cases hs
+    | true =>
+      have e1 : remove (lpoke (lrun c ops) a p) b =
+          .ok { cfg := (lrun c ops).cfg, a2i := (lrun c ops).a2i.del b, i2a := [], pts := none,
+                pos := upd (upd (lrun c ops).pos a (some p)) b none } := by
+        simp only [remove]; rw [hk', hk]; rfl
+      have hk2 : (move (lrun c ops) a p).1.a2i.keys.contains b = true := by rw [m2]; exact hk
+      have e2 : remove (move (lrun c ops) a p).1 b =
+          .ok { cfg := (move (lrun c ops) a p).1.cfg, a2i := (move (lrun c ops) a p).1.a2i.del b, i2a := [], pts := none,
+                pos := upd (move (lrun c ops) a p).1.pos b none } := by
+        simp only [remove]; rw [hk2]; rfl
+      rw [e1] at hs; cases hs
+      rw [e2, m1, m2, m3]
+
 /-- … read as a set: an agent is returned iff it is in the space and within the radius. -/
 theorem C10_legacy_neighbors_mem (c : LCfg) (ops : List LOp) (p : P2) (r : Int) (incl : Bool) (a : Aid) :
     a ∈ nbrSpec c (lspec c ops).1 (lspec c ops).2 p r incl ↔
@@ -1126,6 +1196,17 @@ example : agentsInRadius (erun exE 0 exERaw) [990, 0, 0] 10 = [(3, 81)] := by de
 /-- the hypothesis of `C10_exp_positions_inside` holds of a history with an in-bounds write through the view -/
 example : ∀ i p, EOp.raw i p ∈ exEOps ++ [.raw 1 [64, 0, 0]] → inBounds exE.dims p = true := by
   intro i p h; simp [exEOps] at h; obtain ⟨_, rfl⟩ := h; decide
+/-! legacy, `agent.pos` written directly while the cache is live: `get_neighbors` still answers for the old position `(64, 64)`;
+after the next placement the state is the one `move_agent` would have given -/
+def exLd : LCfg := { xmin := 0, xmax := 640, ymin := 0, ymax := 640, torus := false }
+def exLdOps : List LOp := [.place 1 (64, 64), .place 2 (320, 320), .nbrs (0, 0) 100 true]
+example : (lrun exLd exLdOps).pts = some [(64, 64), (320, 320)] := by decide
+example : (getNeighbors (lpoke (lrun exLd exLdOps) 1 (600, 600)) (64, 64) 10 true).2 = .ok [1] := by rfl
+example : (getNeighbors (lpoke (lrun exLd exLdOps) 1 (600, 600)) (600, 600) 10 true).2 = .ok [] := by rfl
+example : (lpoke (lrun exLd exLdOps) 1 (600, 600)).pos 1 = some (600, 600) := by decide
+example : (getNeighbors (lstep (lpoke (lrun exLd exLdOps) 1 (600, 600)) (.place 3 (1, 1))) (600, 600) 10 true).2 = .ok [1] := by
+  rfl
+
 /-! vectors of the wrong length: `[5]` is taken for `(5, 5, 5)`; two coordinates in a 3-D space are a `ValueError`; the
 distances of a bounded space refuse `[5]` while its difference vectors, and the distances of a torus, broadcast it -/
 def exT : ECfg := { dims := [(0, 64), (0, 64)], torus := true }
